@@ -8,5 +8,5 @@ package recovery
 //@   property C10
 //@   safety C10
 //@   requires decryptHeader != nil && verifyHeader != nil
-//@   modifies *
+//@   modifies *, indexWrites
 //@   ensures [drive-unchanged] driveHeld == old(driveHeld)
